@@ -115,8 +115,9 @@ bool get_debug_flag(const std::string& name, const std::set<std::string>& debug_
     return debug_set.count(name) || (v ? strcmp("0", v) : fallback);
 }
 
+// an exception that nothing below handles (e.g. an inline function such as int() / jacobi() given data it cannot convert) is an input error, not a reason to abort
 int main(int argc, char* const* argv)
-{
+try {
     pipe_in = !isatty(fileno(stdin)) || std::getenv("DEBUG_SET_PIPE_IN");
     pipe_out = !isatty(fileno(stdout)) || std::getenv("DEBUG_SET_PIPE_OUT");
     if (pipe_in || pipe_out) btc_logf = btc_logf_dummy;
@@ -399,6 +400,9 @@ int main(int argc, char* const* argv)
         }
         kerl_run("btcdeb> ");
     }
+} catch (const std::exception& ex) {
+    fprintf(stderr, "error: %s\n", ex.what());
+    return 1;
 }
 
 static const char* opnames[] = {
